@@ -322,3 +322,13 @@ func (p *pkg) report(w io.Writer) {
 	}
 	fmt.Fprintln(w)
 }
+
+// reportAtomOnly: packages scanned for Atomicity.v only.
+func (p *pkg) reportAtomOnly(w io.Writer) {
+	fmt.Fprintf(w, "== package %s (%s): %d files, %d functions analysed (Atomicity.v only)\n", p.name, p.dir, len(p.files), len(p.order))
+	fmt.Fprintf(w, "errors: %d\n", len(p.errors))
+	for _, e := range p.errors {
+		fmt.Fprintf(w, "  ERROR %s\n", e)
+	}
+	fmt.Fprintln(w)
+}
